@@ -78,6 +78,7 @@ Proof.
   - destruct (String.eqb name default_coll); [exact Hs|].
     destruct (coll_id s name); [|exact Hs]. unfold store_ok; cbn. apply Forall_filter. exact Hs.
   - destruct (coll_id s coll); exact Hs.
+  - exact Hs.
   - pose proof (expire_colls_ok x (map fst (s_colls s)) s [] Hs) as H.
     destruct (expire_colls s x (map fst (s_colls s)) []) as [s' evs]. exact H.
 Qed.
@@ -166,13 +167,13 @@ Qed.
 (* ------------------------------------------------------------------------------------------ *)
 (* lifting a sound row checker to histories                                                     *)
 
-Lemma kv_step_sound rc : rc_sound rc -> forall s x o colls keys xn, store_ok s -> wf_sop o ->
+Lemma kv_step_sound rc : rc_sound rc -> forall s x o colls keys xn n0 n1, store_ok s -> wf_sop o ->
   let res := sstep s x o in
-  kv_step rc (snap s colls keys xn) x o
-    (mkOstep (sr_resp res) (fevents_of (sr_events res)) (sr_dump res) (snap (sr_store res) colls keys xn)) = true.
+  kv_step rc (with_next (snap s colls keys xn) n0) x o
+    (mkOstep (sr_resp res) (fevents_of (sr_events res)) (sr_dump res) (with_next (snap (sr_store res) colls keys xn) n1)) = true.
 Proof.
-  intros Hrc s x o colls keys xn Hs Hwf. cbv zeta. destruct o; cbn [kv_step]; try reflexivity.
-  cbn [os_snap os_resp os_live].
+  intros Hrc s x o colls keys xn n0 n1 Hs Hwf. cbv zeta. destruct o; cbn [kv_step]; try reflexivity.
+  cbn [os_snap os_resp os_live with_next sn_rows].
   destruct (look (coll, key) (sn_rows (snap s colls keys xn))) as [pre|] eqn:Epre; [|reflexivity].
   destruct (look (coll, key) (sn_rows (snap (sr_store (sstep s x (SKv coll key op))) colls keys xn))) as [post|] eqn:Epost; [|reflexivity].
   apply look_snap in Epre. destruct Epre as (cid & Ecid & ->).
@@ -190,12 +191,12 @@ Proof.
   - unfold kv_on; cbv zeta; cbn [sr_events]. unfold fevents_of. rewrite map_map. reflexivity.
 Qed.
 
-Theorem walk_sound rc : rc_sound rc -> forall c steps s, store_ok s -> wf_steps steps ->
-  walk (kv_step rc) (snap s (sc_colls c) (sc_keys c) (sc_xnames c)) steps (srun_from s c steps) = true.
+Theorem walk_sound rc : rc_sound rc -> forall c steps s n, store_ok s -> wf_steps steps ->
+  walk (kv_step rc) (with_next (snap s (sc_colls c) (sc_keys c) (sc_xnames c)) n) steps (srun_from s n c steps) = true.
 Proof.
-  intros Hrc c steps. induction steps as [|[x o] r IH]; intros s Hs Hwf; cbn [srun_from walk]; [reflexivity|].
-  inversion Hwf as [|? ? Hwo Hwr]; subst. cbn [snd] in Hwo.
-  rewrite (kv_step_sound rc Hrc s x o _ _ _ Hs Hwo). cbn [andb os_snap].
+  intros Hrc c steps. induction steps as [|[x o] r IH]; intros s n Hs Hwf; cbn [srun_from walk]; [reflexivity|].
+  inversion Hwf as [|? ? Hwo Hwr]; subst. cbn [snd] in Hwo. cbv zeta.
+  rewrite (kv_step_sound rc Hrc s x o _ _ _ n _ Hs Hwo). cbn [andb os_snap].
   apply IH; [apply sstep_ok; assumption | exact Hwr].
 Qed.
 
